@@ -16,7 +16,8 @@ Memory = a pattern (function of seed, chip, address) + sparse initial overrides 
 """
 import struct
 
-CMD_VER, CMD_READ, CMD_WRITE, CMD_FILL, CMD_LINK_READ, CMD_LINK_WRITE = 0, 2, 3, 5, 17, 18
+CMD_VER, CMD_READ, CMD_WRITE, CMD_FILL, CMD_LINK_READ, CMD_LINK_WRITE, CMD_INFO = 0, 2, 3, 5, 17, 18, 31
+CONTROL = (CMD_VER, CMD_INFO)          # queries that do not touch memory
 RC_OK, RC_LEN, RC_CMD, RC_ARG = 0x80, 0x81, 0x83, 0x84
 UNITS = {0: 1, 1: 2, 2: 4}
 LINK_DELTA = {0: (1, 0), 1: (1, 1), 2: (0, 1), 3: (-1, 0), 4: (-1, -1), 5: (0, -1)}
@@ -89,7 +90,8 @@ class Memory(object):
 
 
 class SimMachine(object):
-    def __init__(self, seed, over, buffer_size, dims=(8, 8), boot=(0, 0)):
+    def __init__(self, seed, over, buffer_size, dims=(8, 8), boot=(0, 0), eth=()):
+        self.eth = dict(((x, y), k) for x, y, k in eth)      # Ethernet-connected chips -> last byte of 10.11.12.k
         self.mem = Memory(seed, over)
         self.buffer_size = buffer_size
         self.dims = tuple(dims)
@@ -120,6 +122,15 @@ class SimMachine(object):
         if cmd == CMD_VER:
             arg1 = (((chip[0] << 8) | chip[1]) << 16) | (p & 0xff)
             return RC_OK, (arg1, (133 << 16) | (self.buffer_size & 0xffff), 0), b"SC&MP/SpiNNaker\0"
+        if cmd == CMD_INFO:
+            # chip information: arg1 = cores | links << 8 | free router entries << 14 | ethernet up << 25;
+            # data = 18 core states, nearest Ethernet chip (x << 8 | y), IP address
+            up = chip in self.eth
+            arg1 = 18 | (0x3f << 8) | (1023 << 14) | ((1 if up else 0) << 25)
+            near = min(self.eth or {self.boot: 0}, key=lambda e: (abs(e[0] - chip[0]) + abs(e[1] - chip[1]), e))
+            data = bytes(bytearray([0] * 18)) + struct.pack("<H", (near[0] << 8) | near[1]) + \
+                bytes(bytearray([10, 11, 12, self.eth.get(chip, 0)]))
+            return RC_OK, (arg1, 1 << 20, 1 << 14), data
         if cmd == CMD_READ:
             if a3 not in UNITS or a2 > self.buffer_size:
                 return RC_ARG, (), b""
